@@ -38,6 +38,12 @@ def main():
         elif prop == "C14":
             from . import check_c14
             rc = check_c14.run(prop, a.tier, seed)
+        elif prop == "C17":
+            from . import check_c17
+            rc = check_c17.run(prop, a.tier, seed)
+        elif prop == "C19":
+            from . import check_c19
+            rc = check_c19.run(prop, a.tier, seed)
         else:
             print("no check for %s" % prop)
             rc = 2
